@@ -146,6 +146,12 @@ def tool_monitor(run: Any) -> list[Any]:
     out = []
     if run.tool_error is not None:
         return [(f"C20 {sc.name} tool error", f"{sc.tool} raised {run.tool_error}", {})]
+    # the later steps of a chain get their own parameters: a step leaves the shared dictionary as it found it
+    if run.param_dict_after != run.param_dict_before:
+        diff = {k: run.param_dict_after.get(k) for k in set(run.param_dict_after) | set(run.param_dict_before) if run.param_dict_after.get(k) != run.param_dict_before.get(k)}
+        out.append((f"C20 {sc.name} step parameters leak into the chain", f"{sc.tool} {'crashed and ' if run.config.tool_crash else ''}left its own parameters in the chain's shared dictionary: {diff}", {}))
+    if run.config.tool_crash:
+        return out
     if run.crash is not None:
         return [(f"C20 {sc.name} crash", f"traversal failed: {run.crash}", {})]
     selected = sorted(sc.vm_strs)
@@ -163,8 +169,20 @@ def tool_monitor(run: Any) -> list[Any]:
             if e["params"].get("vm_action") != ACTION_OF.get(sc.tool, sc.tool):
                 out.append((f"C20 {sc.name} wrong action", f"{sc.tool} executed a test with vm_action={e['params'].get('vm_action')}", {}))
             for k, v in sc.params.items():
+                if any(k.endswith("_" + x) for x in selected):
+                    continue
                 if e["params"].get(k) != v:
                     out.append((f"C20 {sc.name} step parameter lost {k}", f"{sc.tool}: parameter {k}={v!r} not applied (got {e['params'].get(k)!r})", {}))
+            # parameters given for one vm (key_<vm>) are the effective value for that vm
+            from virttest.utils_params import Params
+
+            for k, v in sc.params.items():
+                for vm in vms:
+                    if k.endswith("_" + vm):
+                        base = k[: -len(vm) - 1]
+                        got = Params(e["params"]).object_params(vm).get(base)
+                        if got != v:
+                            out.append((f"C20 {sc.name} per-vm step parameter lost {base}", f"{sc.tool}: {k}={v!r} was given but the test for {vm} runs with {base}={got!r}", {}))
             key = (e["worker"], vms[0] if vms else "")
             seen[key] = seen.get(key, 0) + 1
         else:
@@ -209,6 +227,9 @@ def plans(tier: str) -> list[dict[str, Any]]:
         P("boot vm1 vm2, 1 worker", trav.ToolScenario("t-boot", "boot", nets="net1", vm_strs=vm12), m, K=1, statuses=["PASS", "FAIL"], max_nonpass=1),
         P("create vm1, 2 workers, one failure", trav.ToolScenario("t-create", "create", nets="net1 net2", vm_strs=vm1), m, K=1, statuses=["PASS", "FAIL"], max_nonpass=1),
         P("boot vm2(Win7) vm3 on net1 net5 net2 (net5 excludes Win7)", _restricted("t-boot-net5", "boot"), m, K=1, statuses=["PASS"]),
+        P("unset on vm1 vm2 with a removal mode given for vm1 only", trav.ToolScenario("t-unset-pervm", "unset", nets="net1 net2", vm_strs=vm12, params={"unset_state_images": "customize", "unset_mode_vm1": "fa"}), m, K=1, statuses=["PASS"]),
+        P("clean vm1 when the environment fails to start", trav.ToolScenario("t-clean-crash", "clean", nets="net1 net2", vm_strs=vm1), m, K=1, statuses=["PASS"], tool_crash=True),
+        P("create vm1 when the environment fails to start", trav.ToolScenario("t-create-crash", "create", nets="net1", vm_strs=vm1), m, K=1, statuses=["PASS"], tool_crash=True),
     ]
     if tier == "thorough":
         out.append(P("clean vm1, 1 worker, one failure", trav.ToolScenario("t-clean", "clean", nets="net1", vm_strs=vm1), m, K=1, statuses=["PASS", "FAIL"], max_nonpass=1))
